@@ -48,7 +48,7 @@ CheckText(e) ==
     \o (IF e.utf8 /\ e.outcome = "ok" THEN PrintChecks(e) ELSE <<>>)
     \o (IF e.utf8 THEN
           LET r == FParse(e.text) IN
-          IF r.ok /\ FDecidable(r.v) /\ ~HasOptUriEsc(e.text) THEN Need(e.outcome = "ok", "C08", <<"well-formed filter rejected", StringOf(e.text), e.msg>>)
+          IF r.ok /\ FDecidable(r.v) /\ ~DebatableEsc(e.text) THEN Need(e.outcome = "ok", "C08", <<"well-formed filter rejected", StringOf(e.text), e.msg>>)
                        \o (IF e.outcome = "ok" THEN Need(FDenotes(r.v, e.tree), "C08", <<"parsed tree differs from the grammar's", StringOf(e.text)>>) ELSE <<>>)
           ELSE <<>>
         ELSE <<>>)
